@@ -184,7 +184,7 @@ func C19(r *core.Run) {
 		})
 		// block structure: a small alphabet of lines that only mean something together (markers, stored names, nested
 		// blocks, verbatim cmdline lines that look like markers), enumerated deeper than the general line alphabet
-		enumSeq(len(c19Blocks), r.Pick(5, 6), func(idx int, seq []int) {
+		enumSeq(len(c19Blocks), 5, func(idx int, seq []int) {
 			if idx%n != shard || len(seq) < 4 {
 				return
 			}
